@@ -407,14 +407,16 @@ where
         // An edge is stored as outbound on its creator and inbound on the
         // other endpoint.
         for (v, _) in outbound {
-            if let Some(v) = v.upgrade() {
+            // The mirror entry of a self-loop sat in this node's own lists and
+            // went with them; what is there now belongs to a newer edge.
+            if let Some(v) = v.upgrade().filter(|v| !Arc::ptr_eq(&v.inner, &self.inner)) {
                 #[cfg(gdsl_verif)]
                 crate::verif_hook::lock_point(&v.inner.2, true);
                 let _ = v.inner.2.write().unwrap().remove_inbound(self.key());
             }
         }
         for (v, _) in inbound {
-            if let Some(v) = v.upgrade() {
+            if let Some(v) = v.upgrade().filter(|v| !Arc::ptr_eq(&v.inner, &self.inner)) {
                 #[cfg(gdsl_verif)]
                 crate::verif_hook::lock_point(&v.inner.2, true);
                 let _ = v.inner.2.write().unwrap().remove_outbound(self.key());
